@@ -32,6 +32,7 @@ from edb.common import markup
 from edb.edgeql import parser as ql_parser
 
 from . import amsg
+from . import state
 
 
 # "created continuously" means the interval between two consecutive spawns
@@ -50,7 +51,15 @@ def worker(sockname, version_serial, get_handler):
                 prepare_exception(ex)
                 if debug.flags.server:
                     markup.dump(ex)
-                data = (1, ex, traceback.format_exc())
+                # Nothing was executed -- in particular no state was synced.
+                # Say so, or the pool records the state it sent along with
+                # this request as installed in this worker.
+                data = (
+                    1,
+                    state.FailedStateSync(
+                        f'request not processed: {type(ex).__name__}({ex})'),
+                    traceback.format_exc(),
+                )
             else:
                 try:
                     res = meth(*args)
